@@ -1,5 +1,6 @@
 // scratch probe (development only)
 #include "mesh_common.h"
+#include <stdexcept>
 
 extern "C" void harness_p0() {
   TopologyKernel m;
@@ -12,4 +13,114 @@ extern "C" void harness_p0() {
   V_ASSERT(p[VH(1)] == x);
   V_ASSERT(m.n_props<Entity::Vertex>() == 1);
   v_witness("p0");
+}
+
+extern "C" void harness_p1() {
+  std::optional<TopologyKernel> mo; mo.emplace(); TopologyKernel *m = &*mo;
+  m->add_n_vertices(2);
+  int x = v_nondet_int();
+  if (v_param(0) == 1) { v_witness("cut"); return; }
+  auto p = m->request_property<int, Entity::Vertex>("a", 7);
+  if (v_param(0) == 2) { v_witness("cut"); return; }
+  auto q = m->request_property<int, Entity::Vertex>("a", 9);
+  if (v_param(0) == 3) { v_witness("cut"); return; }
+  p[VH(1)] = x;
+  if (v_param(0) == 4) { v_witness("cut"); return; }
+  V_ASSERT(q[VH(1)] == x);
+  if (v_param(0) == 5) { v_witness("cut"); return; }
+  auto b = m->request_property<bool, Entity::Vertex>("a", true);
+  if (v_param(0) == 6) { v_witness("cut"); return; }
+  V_ASSERT(b[VH(0)] == true);
+  if (v_param(0) == 7) { v_witness("cut"); return; }
+  V_ASSERT(m->n_props<Entity::Vertex>() == 2);
+  if (v_param(0) == 8) { v_witness("cut"); return; }
+  auto c = m->create_shared_property<int, Entity::Vertex>("a", 1);
+  if (v_param(0) == 9) { v_witness("cut"); return; }
+  V_ASSERT(!c.has_value());
+  if (v_param(0) == 10) { v_witness("cut"); return; }
+  auto g = m->get_property<int, Entity::Vertex>("b");
+  if (v_param(0) == 11) { v_witness("cut"); return; }
+  V_ASSERT(!g.has_value());
+  if (v_param(0) == 12) { v_witness("cut"); return; }
+  V_ASSERT((m->property_exists<int, Entity::Vertex>("a")));
+  if (v_param(0) == 13) { v_witness("cut"); return; }
+  auto pr = m->create_private_property<int, Entity::Vertex>("a", 3);
+  if (v_param(0) == 14) { v_witness("cut"); return; }
+  V_ASSERT(m->n_props<Entity::Vertex>() == 3);
+  if (v_param(0) == 15) { v_witness("cut"); return; }
+  bool thrown = false;
+  if (v_param(0) == 16) { v_witness("cut"); return; }
+  try { m->set_shared(pr, true); } catch (const std::runtime_error &) { thrown = true; }
+  V_ASSERT(thrown);
+  if (v_param(0) == 17) { v_witness("cut"); return; }
+  V_ASSERT(!pr.shared());
+  if (v_param(0) == 18) { v_witness("cut"); return; }
+  thrown = false;
+  if (v_param(0) == 19) { v_witness("cut"); return; }
+  try { m->set_persistent(pr, true); } catch (const std::runtime_error &) { thrown = true; }
+  V_ASSERT(thrown);
+  if (v_param(0) == 20) { v_witness("cut"); return; }
+  m->set_persistent(p, true);
+  if (v_param(0) == 21) { v_witness("cut"); return; }
+  V_ASSERT(m->n_persistent_props<Entity::Vertex>() == 1);
+  if (v_param(0) == 22) { v_witness("cut"); return; }
+  {
+    auto p2 = p;
+    V_ASSERT(p2[VH(1)] == x);
+  }
+  m->clear_props<Entity::Vertex>();
+  if (v_param(0) == 23) { v_witness("cut"); return; }
+  V_ASSERT(!p.shared() && !p.persistent());
+  if (v_param(0) == 24) { v_witness("cut"); return; }
+  V_ASSERT(m->n_props<Entity::Vertex>() == 3);
+  if (v_param(0) == 25) { v_witness("cut"); return; }
+  V_ASSERT(bool(p));
+  if (v_param(0) == 26) { v_witness("cut"); return; }
+  mo.reset();
+  if (v_param(0) == 27) { v_witness("cut"); return; }
+  V_ASSERT(!bool(p));
+  if (v_param(0) == 28) { v_witness("cut"); return; }
+  V_ASSERT(p.size() == 2);
+  if (v_param(0) == 29) { v_witness("cut"); return; }
+  V_ASSERT(p[VH(1)] == x);
+  if (v_param(0) == 30) { v_witness("cut"); return; }
+  v_witness("p1");
+}
+
+extern "C" void harness_p2() {
+  TopologyKernel m;
+  m.add_n_vertices(2);
+  int x = v_nondet_int();
+  auto p = m.create_persistent_property<int, Entity::Vertex>("a", 7);
+  (*p)[VH(1)] = x;
+  auto s = m.request_property<bool, Entity::Vertex>("s", false);
+  {
+    TopologyKernel c(m);
+    V_ASSERT(c.n_vertices() == 2);
+    V_ASSERT(c.n_props<Entity::Vertex>() == 1);
+    auto q = c.get_property<int, Entity::Vertex>("a");
+    V_ASSERT(q.has_value());
+    V_ASSERT((*q)[VH(1)] == x);
+    (*q)[VH(1)] = x + 1;
+    V_ASSERT((*p)[VH(1)] == x);
+    V_ASSERT(!(c.property_exists<bool, Entity::Vertex>("s")));
+    c = m;
+    c.add_vertex();
+    V_ASSERT(q->size() == 3);
+  }
+  v_witness("p2");
+}
+
+extern "C" void harness_p3() {
+  std::optional<TopologyKernel> mo; mo.emplace(); TopologyKernel *m = &*mo;
+  m->add_n_vertices(2);
+  V_ASSERT(m->n_vertices() == 2);
+  v_witness("p3");
+}
+extern "C" void harness_p4() {
+  TopologyKernel *m = new TopologyKernel;
+  m->add_n_vertices(2);
+  V_ASSERT(m->n_vertices() == 2);
+  delete m;
+  v_witness("p4");
 }
